@@ -346,11 +346,12 @@ impl SliceRange {
         if self.step > 0 {
             IndexRange::new(resolved.start, resolved.end as isize, self.step)
         } else {
-            IndexRange::new(
-                dim_size - 1 - resolved.start,
-                dim_size as isize - 1 - resolved.end as isize,
-                self.step,
-            )
+            let end = dim_size as isize - 1 - resolved.end as isize;
+            match (dim_size as isize - 1 - resolved.start as isize).try_into() {
+                Ok(start) => IndexRange::new(start, end, self.step),
+                // The range starts before the first index, so it is empty.
+                Err(_) => IndexRange::new(0, 0, self.step),
+            }
         }
     }
 
